@@ -622,7 +622,8 @@ def evalExpr (cfg : Cfg) : Nat → Expr → M Val
                                ("column", .int (I64.ofInt sp.sc)), ("filename", .str s'.module)])
           declare catchIdent o
           evalBlock cfg fuel c
-        body { s' with scopes := s.scopes }
+        -- `inScope` has already removed the scopes of the `try` body; variable updates persist
+        body s'
       | r => r
 def evalList (cfg : Cfg) : Nat → List Expr → M (List Val)
   | 0, _ => throwCtl .timeout
@@ -787,8 +788,8 @@ def loopRun (cfg : Cfg) : Nat → Option Expr → Block → M Unit
     if !go then pure ()
     else fun s =>
       match (inScope (evalBlock cfg fuel body)) s with
-      | (.error .brk, s') => (.ok (), { s' with scopes := s.scopes })
-      | (.error .cont, s') => loopRun cfg fuel cond body { s' with scopes := s.scopes }
+      | (.error .brk, s') => (.ok (), s')
+      | (.error .cont, s') => loopRun cfg fuel cond body s'
       | (.ok _, s') => loopRun cfg fuel cond body s'
       | (.error c, s') => (.error c, s')
 /-- `for` over the snapshot `elems`. -/
@@ -800,8 +801,8 @@ def forRun (cfg : Cfg) : Nat → String → List Val → Block → M Unit
       declare name x
       evalBlock cfg fuel body
     match round s with
-    | (.error .brk, s') => (.ok (), { s' with scopes := s.scopes })
-    | (.error .cont, s') => forRun cfg fuel name xs body { s' with scopes := s.scopes }
+    | (.error .brk, s') => (.ok (), s')
+    | (.error .cont, s') => forRun cfg fuel name xs body s'
     | (.ok _, s') => forRun cfg fuel name xs body s'
     | (.error c, s') => (.error c, s')
 end
